@@ -230,3 +230,30 @@ Lemma switch_consistent (first second : nat) (p : R) : 0 <= p <= 1 ->
   (switch_edge RNum (1 / 2) first second p = second /\ switch_phase RNum (1 / 2) p = 1 - p).
 Proof. intro H. unfold switch_edge, switch_phase. cbn [ltb sub one RNum T].
   destruct (Rltb p (1 / 2)); [right|left]; split; reflexivity. Qed.
+
+(** ** Statements in the form used by props/C05.v *)
+Lemma C05_inv (tiny infty : R) nE ep ec nB bj bk nN (lo hi : nat -> R) (Orc : Type)
+    (project : Orc -> call RNum -> option (RV * RV * Orc)) (S : R) ops so so' :
+  1 <= S -> Forall (shape_is S) ops ->
+  run_ops RNum tiny infty nE ep ec nB bj bk nN lo hi Orc project ops so = Some so' ->
+  (forall u, proper S (post (fst so) u)) -> forall u, proper S (post (fst so') u).
+Proof. intros HS HQ H HP. exact (run_ops_proper tiny infty nE ep ec nB bj bk nN lo hi Orc project S HS ops so so' HQ H HP). Qed.
+
+Lemma C05_iters (tiny infty : R) nE ep ec nB bj bk nN (lo hi : nat -> R) (Orc : Type)
+    (project : Orc -> call RNum -> option (RV * RV * Orc)) (S : R)
+    block_order edge_order blik elik free s mx rt regularise k o so' :
+  1 <= S ->
+  iterate_n RNum tiny infty nE ep ec nB bj bk nN lo hi Orc project block_order edge_order blik elik
+    free S s mx rt regularise k (init, o) = Some so' ->
+  forall u, proper S (post (fst so') u).
+Proof. intros HS H.
+  exact (iterate_n_proper tiny infty nE ep ec nB bj bk nN lo hi Orc project S HS block_order edge_order blik elik free s mx rt regularise k
+           (init, o) so' H (init_proper S)). Qed.
+
+Lemma C05_mom (lo hi : nat -> R) (S : R) (st : Rstate) u :
+  1 <= S -> proper S (post st u) -> post st u <> (0, 0) -> eqb RNum (lo u) (hi u) = false ->
+  0 < fst (node_moments RNum lo hi st u) /\ 0 < snd (node_moments RNum lo hi st u) /\
+  fst (node_moments RNum lo hi st u) * fst (node_moments RNum lo hi st u) / snd (node_moments RNum lo hi st u)
+    = fst (post st u) + 1 /\
+  fst (node_moments RNum lo hi st u) * fst (node_moments RNum lo hi st u) / snd (node_moments RNum lo hi st u) <= S.
+Proof. intros HS HP Hne Hf. exact (proper_moments lo hi S HS st u HP Hne Hf). Qed.
